@@ -110,6 +110,12 @@ def oracle(case, obs, prep=None):
     by_owner: dict[str, list] = {}
     for m, n in obs["log"]:
         by_owner.setdefault(gen_wf.site_owner(case, n), []).append([m, n])
+    kind_site = {f["rf"]["kind"]: f["rf"]["prefix"] for f in fns.values()
+                 if f.get("rf") and f["rf"].get("lookup") and f["rf"].get("kind")}
+    for k in obs.get("lookups") or []:       # a kind-discovery call is an API call on behalf of the kind's only user
+        site = kind_site.get(k.split(".")[0])
+        if site:
+            by_owner.setdefault(gen_wf.site_owner(case, site), []).append(["LOOKUP", k])
     for s in steps:
         l = s["label"]
         mine = by_owner.get(l, [])
@@ -275,6 +281,7 @@ def observe(case):
     prep = wf_run.prepare_case(case)
     if prep.problems:
         raise Infra(f"generated definitions rejected by prepare: {prep.problems[:2]}")
+    wf_run.cool_lookups(prep)        # functions prepared without `plural` discover it in this pass
     return prep, wf_run.run_prepared(prep)
 
 
@@ -361,7 +368,7 @@ def check_case(ck, case, ans, tag):
         mv = wf_run.model_view(ans)
         diff = wf_run.compare(obs, mv)
         api_m = sorted(ans["api"])
-        api_i = sorted(f"{m} {n}" for m, n in obs["log"])
+        api_i = sorted([f"{m} {n}" for m, n in obs["log"]] + [f"LOOKUP {k}" for k in obs.get("lookups") or []])
         if api_m != api_i:
             diff.append("api-requests")
         if not ans["wf"]:
@@ -476,6 +483,9 @@ def run(tier: str) -> int:
                            ("forEach-switch-on-steps", gen_wf.gen_foreach_switch_steps_case, 30, 400),
                            ("falsy-value-state", gen_wf.gen_falsy_state_case, 30, 400),
                            ("shared-dependency-value", gen_wf.gen_alias_case, 40, 400),
+                           ("digit-label", gen_wf.gen_digit_label_case, 30, 300),
+                           ("non-json-values", gen_wf.gen_typed_value_case, 25, 300),
+                           ("gated-kind-discovery", gen_wf.gen_gated_lookup_case, 30, 300),
                            ("steps-as-a-whole", gen_wf.gen_whole_steps_case, 15, 150)):
         rt = rng("c01-" + tag)
         xs = [g(rt) for _ in range(nq if tier == "quick" else nt)]
